@@ -8,7 +8,7 @@ import (
 )
 
 func main() {
-	all := []string{"rd-safe", "rd-safe-cf", "rd-unsafe", "rd-unsafe-cf", "rd-unsafe-cf-nomem", "rd-partial-ucf-nomem", "rd-partial-ucf-nomem-f1", "rd-late", "rd-safe+rev", "faulty/merge4", "faulty/safe3/sticky", "rd-late-ucf-nomem", "rd-nap-cf", "rd-keep2"}
+	all := []string{"rd-safe", "rd-safe-cf", "rd-unsafe", "rd-unsafe-cf", "rd-unsafe-cf-nomem", "rd-partial-ucf-nomem", "rd-partial-ucf-nomem-f1", "rd-late", "rd-safe+rev", "faulty/merge4", "faulty/merge4/settle", "faulty/safe3/sticky", "rd-late-ucf-nomem", "rd-nap-cf", "rd-keep2"}
 	livecheck.Main(livecheck.Plan{
 		ID:     "C04",
 		Oracle: livecheck.Oracle{Immutable: true, Files: true},
